@@ -307,7 +307,7 @@ def apply(net, E, tr):
         if c.covm is not None: c.covm = _perm_cov(c.covm, perm, [o.dim() for o in c.obs])
         c.obs = [c.obs[i] for i in perm]
     elif k == "id":                                 # rename all points
-        m = IDMAPS[tr[1]][net.tmpl]
+        m = idmap(tr[1], net.tmpl)
         cur = {p.id: m[_base_id(E, p.id)] for p in net.points}
         for p in net.points: p.id = cur[p.id]
         for c in net.clusters:
@@ -429,24 +429,45 @@ def build(tmpl, bits, word):
     return net, E
 
 
-_ID40 = lambda s: ("point-%s-" % s + "0123456789abcdefghijklmnopqrstuvwxyz_ABCDEFGH")[:40]
-IDMAPS = {
-    "rev": {   # numeric ids whose order is the reverse of the base order
-        "net2d": {"A": "50", "B": "40", "C": "30", "P": "20", "Q": "10"},
-        "net3d": {"A": "50", "B": "40", "C": "30", "P": "20", "Q": "10"},
-        "netc": {"A": "50", "B": "40", "C": "30", "P": "20", "Q": "10"},
-        "lev":   {"H1": "50", "H2": "40", "N1": "30", "N2": "20", "N3": "10"}},
-    "utf8": {  # non-ASCII UTF-8 (2-, 3- and 4-byte sequences)
-        "net2d": {"A": "Á-1", "B": "βod", "C": "点C", "P": "žák", "Q": "\U0001d6c0"},
-        "net3d": {"A": "Á-1", "B": "βod", "C": "点C", "P": "žák", "Q": "\U0001d6c0"},
-        "netc": {"A": "Á-1", "B": "βod", "C": "点C", "P": "žák", "Q": "\U0001d6c0"},
-        "lev":   {"H1": "Á-1", "H2": "βod", "N1": "点C", "N2": "žák", "N3": "\U0001d6c0"}},
-    "long": {  # 40 characters, common prefix of 6 and common tail
-        "net2d": {s: _ID40(s) for s in "ABCPQ"},
-        "net3d": {s: _ID40(s) for s in "ABCPQ"},
-        "netc": {s: _ID40(s) for s in "ABCPQ"},
-        "lev":   {s: _ID40(s) for s in ("H1", "H2", "N1", "N2", "N3")}},
-}
+BASE_IDS = {"net2d": ["A", "B", "C", "P", "Q"], "net3d": ["A", "B", "C", "P", "Q"], "netc": ["A", "B", "C", "P", "Q"],
+            "netcy": ["A", "B", "C", "P", "Q"], "lev": ["H1", "H2", "N1", "N2", "N3"]}
+
+
+def _u(*bs):
+    return bytes(bs).decode("utf8")
+
+
+def _idlist(name):
+    """five identifiers of the id map `name` (for the five points of a template, in base order)"""
+    if name == "rev":       # numeric ids whose order is the reverse of the base order
+        return ["50", "40", "30", "20", "10"]
+    if name == "utf8":      # non-ASCII UTF-8 (2-, 3- and 4-byte sequences)
+        return ["\u00c1-1", "\u03b2od", "\u70b9C", "\u017e\u00e1k", "\U0001d6c0"]
+    if name == "long":      # 40 characters, common prefix of 6 and common tail
+        return [("point-%s-" % s + "0123456789abcdefghijklmnopqrstuvwxyz_ABCDEFGH")[:40] for s in "ABCPQ"]
+    if name == "blank":     # inner single blanks and no-break spaces (U+00A0 = C2 A0)
+        return ["pt A", "pt B", "pt\u00a0C", "P 1 x", "Q\u00a01"]
+    # u2-j / u3-j, j = 0..15: 2- resp. 3-byte UTF-8 characters whose continuation bytes are 0x80+4j .. 0x80+4j+3;
+    # the 16 maps of a family contain every continuation byte value 0x80..0xBF (u3: in the 2nd and in the 3rd
+    # position); ids 0/1 (u3: also 1/2) differ only in one continuation byte; ids 0-3 contain an inner blank
+    fam, j = name.split("-"); j = int(j)
+    c0, c1, c2, c3 = (0x80 + 4 * j + k for k in range(4))
+    if fam == "u2":
+        l = 0xC3 + j                                    # C3..D2: U+00C0..U+04BF
+        return ["Bod " + _u(l, c0), "Bod " + _u(l, c1), _u(l, c2) + " z", "q " + _u(l, c3), _u(l, c0) + _u(l, c3) + "5"]
+    if fam == "u3":
+        l = 0xE1 + j % 12                               # E1..EC: U+1000..U+CFFF
+        return ["Bod " + _u(l, c0, c1), "Bod " + _u(l, c1, c1), "Bod " + _u(l, c1, c0), _u(l, c2, c3) + " z", "q" + _u(l, c3, c2)]
+    raise KeyError(name)
+
+
+IDMAP_NAMES = ["rev", "utf8", "long", "blank"] + ["u2-%d" % j for j in range(16)] + ["u3-%d" % j for j in range(16)]
+
+
+def idmap(name, tmpl):
+    ids = _idlist(name)
+    assert len(set(ids)) == 5
+    return dict(zip(BASE_IDS[tmpl], ids))
 
 
 # ------------------------------------------------------------------ transition menus
@@ -477,7 +498,7 @@ def single_words(tmpl, groups=None):
     W["pp"] = [(("pp", p),) for p in perms_of(len(net.points))]
     W["pc"] = [(("pc", p),) for p in perms_of(len(net.clusters))]
     W["po"] = [(("po", c.uid, p),) for c in net.clusters for p in perms_of(len(c.obs))]
-    W["id"] = [(("id", k),) for k in ("rev", "utf8", "long")]
+    W["id"] = [(("id", k),) for k in IDMAP_NAMES]
     nang = [c.uid for c in net.clusters if any(o.kind in ANGULAR for o in c.obs)]
     if nang:
         masks = []
@@ -505,7 +526,7 @@ def reduced_menu(tmpl):
     R = [("tr", 1), ("tr", 0),
          ("pp", tuple(reversed(range(n)))), ("pp", tuple((i + 2) % n for i in range(n))),
          ("pc", tuple(reversed(range(m)))),
-         ("id", "rev"), ("id", "utf8")]
+         ("id", "rev"), ("id", "utf8"), ("id", "u2-2")]
     big = max(net.clusters, key=lambda c: len(c.obs))
     R.append(("po", big.uid, tuple(reversed(range(len(big.obs))))))
     cc = [c for c in net.clusters if c.covm is not None][0]
@@ -717,7 +738,7 @@ def compare(Rb, Rt, E, tmpl):
     Lb = labels(Rb); Lt = labels(Rt)
     if Rb.cov_dim != Rt.cov_dim or len(Lb) != Rb.cov_dim or len(Lt) != Rt.cov_dim or Rb.cov_band != Rt.cov_band:
         fail("cov-shape", "dim %s band %s labels %d -> dim %s band %s labels %d" % (Rb.cov_dim, Rb.cov_band, len(Lb), Rt.cov_dim, Rt.cov_band, len(Lt)))
-    elif sorted((c, inv.get(p)) for c, p in Lt) != sorted(Lb):
+    elif sorted((c, inv.get(p, "?" + p)) for c, p in Lt) != sorted(Lb):
         fail("cov-labels", "%s -> %s" % (Lb, Lt))
     elif Rb.cov_band == Rb.cov_dim - 1:
         Cb = gnet.cov_full(Rb); Ct = gnet.cov_full(Rt)
